@@ -6,9 +6,12 @@ package classifier
 // Metamorphic oracle: Match(P+X+S) == Match(X) shifted by |P| tokens and lines(P) lines.
 
 import (
+	"bytes"
 	"fmt"
+	"regexp"
 	"strings"
 	"testing"
+	"unicode/utf8"
 
 	"pgregory.net/rapid"
 	"verif/lib"
@@ -25,9 +28,49 @@ type c07Case struct {
 	// SynthN > 0: X is a synthetic document of SynthN distinct words (added to the corpus) from which SynthDrop words
 	// are missing at the head (or tail): partial copies right at the threshold boundary, where rounding slips in the
 	// candidate search show.
+	// PStyle 1: the lines of the prefix / suffix blocks start with list markers (1. 2) 2.0. 10.2) iv. a.), which the
+	// tokenizer drops at a line start: still unrelated text without any word of its own.
+	PStyle    int  `json:"ps,omitempty"`
 	SynthN    int  `json:"sn,omitempty"`
 	SynthDrop int  `json:"sd,omitempty"`
 	SynthTail bool `json:"st,omitempty"`
+}
+
+var c07Markers = []string{"1.", "2)", "2.0.", "10.2)", "iv.", "a.", "3.", "2.1.", "12)", "b."}
+
+var c07MarkerLike = regexp.MustCompile(`^\(?([0-9]+(\.[0-9]+)*|[a-r]|[ivx]+)[.):]$`)
+
+// c07MarkersIn collects words of x that look like list markers but do not stand at a line start.
+func c07MarkersIn(x []byte) []string {
+	seen := map[string]bool{}
+	var out []string
+	for _, l := range strings.Split(string(x), "\n") {
+		f := strings.Fields(l)
+		for i, w := range f {
+			if i == 0 || seen[w] || !c07MarkerLike.MatchString(strings.ToLower(w)) {
+				continue
+			}
+			// a marker must start with a character the tokenizer starts a word at, and be dropped at a line start
+			if w[0] == '(' {
+				continue
+			}
+			seen[w] = true
+			out = append(out, w)
+		}
+	}
+	return out
+}
+
+func c07Numbered(block []byte, fromX []string) []byte {
+	if len(block) == 0 {
+		return block
+	}
+	markers := append(append([]string{}, fromX...), c07Markers...)
+	ls := strings.Split(strings.TrimSuffix(string(block), "\n"), "\n")
+	for i := range ls {
+		ls[i] = markers[i%len(markers)] + " " + ls[i]
+	}
+	return []byte(strings.Join(ls, "\n") + "\n")
 }
 
 func c07SynthWords(n int) []string {
@@ -92,6 +135,9 @@ func c07Gen(t *rapid.T) interface{} {
 	}
 	c.PWords, c.PLines = blk("prefix")
 	c.SWords, c.SLines = blk("suffix")
+	if lib.IntN(t, 0, 3, "numberedBlocks") == 0 {
+		c.PStyle = 1
+	}
 	if c.PWords == 0 && c.SWords == 0 {
 		c.PWords, c.PLines = 7, 2
 	}
@@ -121,6 +167,11 @@ func c07Check(ci interface{}) lib.Outcome {
 	}
 	p := []byte(oovBlock(cl, 300000, c.PWords, c.PLines))
 	s := []byte(oovBlock(cl, 400000, c.SWords, c.SLines))
+	if c.PStyle == 1 {
+		// prefer markers that also occur inside X (not at a line start there): "Section 2) in", "(see 10.2)" ...
+		mk := c07MarkersIn(x)
+		p, s = c07Numbered(p, mk), c07Numbered(s, mk)
+	}
 	if len(x) > 0 && x[len(x)-1] != '\n' {
 		x = append(x, '\n')
 	}
@@ -134,20 +185,39 @@ func c07Check(ci interface{}) lib.Outcome {
 	}
 	full := append(append(append([]byte{}, p...), x...), s...)
 	tf := ids(cl, full)
-	// premise: ids(P+X+S) == 0^|P| ++ ids(X) ++ 0^|S| with lines shifted by lines(P)
+	// The blocks are unrelated text by construction (verified on their own: every word unknown). Whether X is read
+	// the same way behind / in front of them is part of the property, so a difference at token level is a violation,
+	// not a failed premise. The only legitimate interaction is a hyphen at the very end of X, which joins the first
+	// word of S (then the case is out of domain).
 	dLine := countNL(p)
-	if len(tf) != c.PWords+len(tx)+c.SWords {
+	for _, blk := range [][]byte{p, s} {
+		for _, tk := range ids(cl, blk) {
+			if tk.ID != unknownIndex {
+				return lib.Outcome{Skip: "premise_failed", Classes: classes}
+			}
+		}
+	}
+	if t := bytes.TrimRight(x, " \t\r\n"); len(t) > 0 {
+		if r, _ := utf8.DecodeLastRune(t); isDashRune(r) {
+			return lib.Outcome{Skip: "x-ends-in-hyphen", Classes: classes}
+		}
+	}
+	if len(ids(cl, p)) != c.PWords || len(ids(cl, s)) != c.SWords {
 		return lib.Outcome{Skip: "premise_failed", Classes: classes}
+	}
+	if len(tf) != c.PWords+len(tx)+c.SWords {
+		return lib.Outcome{Violation: fmt.Sprintf("threshold %v, X = %s: X has %d words on its own but %d words between a prefix of %d and a suffix of %d unrelated words", c.Thr, c.X.describe(), len(tx), len(tf)-c.PWords-c.SWords, c.PWords, c.SWords), Classes: classes}
 	}
 	for i, tk := range tf {
 		switch {
 		case i < c.PWords || i >= c.PWords+len(tx):
 			if tk.ID != unknownIndex {
-				return lib.Outcome{Skip: "premise_failed", Classes: classes}
+				return lib.Outcome{Violation: fmt.Sprintf("threshold %v, X = %s: word %d of the surrounding unrelated text became the known word %q", c.Thr, c.X.describe(), i, cl.dict.getWord(tk.ID)), Classes: classes}
 			}
 		default:
 			if tk.ID != tx[i-c.PWords].ID || tk.Line != tx[i-c.PWords].Line+dLine {
-				return lib.Outcome{Skip: "premise_failed", Classes: classes}
+				return lib.Outcome{Violation: fmt.Sprintf("threshold %v, X = %s: word %d of X is %q on line %d when X stands alone, but %q on line %d (expected line %d) behind a prefix of %d unrelated words on %d lines",
+					c.Thr, c.X.describe(), i-c.PWords, cl.dict.getWord(tx[i-c.PWords].ID), tx[i-c.PWords].Line, cl.dict.getWord(tk.ID), tk.Line, tx[i-c.PWords].Line+dLine, c.PWords, dLine), Classes: classes}
 			}
 		}
 	}
@@ -182,6 +252,9 @@ func c07Check(ci interface{}) lib.Outcome {
 	if c.PWords > len(tx) {
 		classes = append(classes, "prefix-longer-than-x")
 	}
+	if c.PStyle == 1 {
+		classes = append(classes, "numbered-list-blocks")
+	}
 	o := lib.Outcome{Classes: classes, Nontrivial: len(lic) > 0 && c.PWords > 0}
 	if o.Nontrivial {
 		o.FP = fmt.Sprintf("%v|%s|%d|%d|%d|%d|%d|%v", c.Thr, c.X.describe(), c.PWords, c.PLines, c.SWords, c.SynthN, c.SynthDrop, c.SynthTail)
@@ -192,6 +265,6 @@ func c07Check(ci interface{}) lib.Outcome {
 
 func TestVerif_C07(t *testing.T) {
 	lib.Run(t, lib.Spec{ID: "C07", Part: "embedding",
-		Rule: "X = pristine / edited / head- or tail-truncated corpus documents and scenario files, alone, in context or concatenated (>= q words), or a synthetic document of 20-240 distinct words (added to the corpus) with exactly the tolerated number of words (+-1) missing at its head / tail; P, S = blocks of 0-3000 verified OOV words on 1-200 lines; premise ids(P+X+S) = 0^|P| ids(X) 0^|S| (and lines) checked white-box; oracle: canonical Match(P+X+S) == Match(X) shifted; non-trivial = Match(X) has a license match and |P| > 0; distinct = distinct (threshold, X recipe, |P|, lines(P), |S|)",
+		Rule: "X = pristine / edited / head- or tail-truncated corpus documents and scenario files, alone, in context or concatenated (>= q words), or a synthetic document of 20-240 distinct words (added to the corpus) with exactly the tolerated number of words (+-1) missing at its head / tail; P, S = blocks of 0-3000 verified OOV words on 1-200 lines (a quarter of them laid out as numbered lists whose markers the tokenizer drops); premise ids(P+X+S) = 0^|P| ids(X) 0^|S| (and lines) checked white-box; oracle: canonical Match(P+X+S) == Match(X) shifted; non-trivial = Match(X) has a license match and |P| > 0; distinct = distinct (threshold, X recipe, |P|, lines(P), |S|)",
 		New:  func() interface{} { return &c07Case{} }, Gen: c07Gen, Check: c07Check})
 }
